@@ -241,7 +241,7 @@ def run(ctx):
     ctx.coverage["distinct_nontrivial"] = len(distinct)
     ctx.coverage["rule"] = ("workloads of 1-3 targets (directory and file outputs sharing contents and sub-directories); per workload: reference run, every "
                             "single fault (i-th backend operation x {err, err-after = stored but error returned, err-mid = reader fails half way}), "
-                            "the build context cancelled at the i-th operation (before an Exists, half way through the stream of a Set), disk full at the i-th operation (RLIMIT_FSIZE 0/64/4096 bytes, 4096 bytes/1 MiB on a workload with 5 MiB blobs: writes store what fits and fail, small entries still fit), everything-fails-from-i, 2-3 scattered faults, remote read-fault histories (mid-stream failure / early close, then a second read; local cache content audit), two concurrent processes with faults (per-key serialised wrapper: replayed), three "
+                            "the build context cancelled at the i-th operation (before an Exists, half way through the stream of a Set), disk full at the i-th operation (RLIMIT_FSIZE 0/64/4096 bytes, 4096 bytes/1 MiB on a workload with 5 MiB blobs: writes store what fits and fail, small entries still fit), everything-fails-from-i, 2-3 scattered faults, remote read-fault histories (mid-stream failure / early close, then a second read; local cache content audit), one-tier histories (a blob only in the remote tier: other machine / lost local tier / local disk full; only in the local tier: remote Set failing late / after storing / half way; then the next builds; through the real S3Cache over a fake client and through the backend GetCacheBackend constructs over an in-process S3 endpoint; remote-tier closure audit after every step, fault-free builds must succeed), two concurrent processes with faults (per-key serialised wrapper: replayed), three "
                             "concurrent processes without the wrapper lock (audit only); after every run: Go-side audit, follow-up build, audit; the real grog binary on a cache from which each single entry was deleted in turn (thorough: pairs) must rebuild to the clean outputs; non-trivial = "
                             "distinct (workload, fault plan) in which at least one injected fault was actually hit")
     ctx.coverage["distribution"] = stats
@@ -267,6 +267,33 @@ def run(ctx):
     stats["seconds_lost_entries"] = round(time.time() - t0, 1)
 
 
+def one_tier_histories(rng, quick):
+    """histories in which a blob ends up in one tier only and the next build has to store the target's outputs again"""
+    from . import c08
+    wss, ts = c08.small_workload()
+    out = []
+    for tg in ([0, 2, 4],) if quick else ([0, 2, 4], [1, 3, 5], [4], [2]):
+        b = {"m": "A", "do": "build", "targets": tg}
+        # remote-only: another machine builds the same targets; the local tier is lost (with / without the local results); a local write
+        # that fails (disk full beyond L bytes) while the upload may go through, then the next build
+        out.append((wss, ts, [b, {"m": "B", "do": "build", "targets": tg}, {"m": "B", "do": "build", "targets": tg}], "one-tier:remote-only:other-machine"))
+        for lose in ("lose-local", "lose-local-cas"):
+            out.append((wss, ts, [b, {"m": "A", "do": "mixed", "ops": [[lose, t] for t in tg] + [["build", t] for t in tg]}, dict(b)], "one-tier:remote-only:" + lose))
+            out.append((wss, ts, [b, {"m": "A", "do": "mixed", "ops": [[lose, t] for t in tg]}, dict(b), dict(b)], "one-tier:remote-only:" + lose + "-next-process"))
+        for lim in (0, 100, 40000):
+            out.append((wss, ts, [dict(b, faults=[{"op": "fsize", "nth": lim}]), dict(b), dict(b)], "one-tier:remote-only:disk-full"))
+        # local-only: the remote write fails after the stream was sent (err-late: nothing stored remotely; err-after: stored, error returned),
+        # for the first / second / every blob resp. result, then the next builds
+        for ns in ("cas", "target"):
+            for kind in ("err-late", "err-after", "err-mid"):
+                for nth in (1, 2, 0):
+                    if quick and (kind == "err-mid" or nth == 2) and ns == "target":
+                        continue
+                    out.append((wss, ts, [dict(b, faults=[{"op": "set", "ns": ns, "nth": nth, "kind": kind}]), dict(b), {"m": "B", "do": "restore", "targets": tg}],
+                                "one-tier:local-only:%s:%s" % (ns, kind)))
+    return out
+
+
 def remote_read_faults(ctx, scratch, stats):
     """a cache READ fails: remote reads failing in the middle of a blob / consumers that stop early, then a second read of the same key,
     through the real RemoteWrapper (harness of C08); oracle: content audit of every local cache, successful restores are byte-identical"""
@@ -279,6 +306,17 @@ def remote_read_faults(ctx, scratch, stats):
     hs = [(ws, t, h + [{"m": "Z", "do": "restore", "targets": list(range(len(t)))}], fam) for ws, t, h, fam in hs]
     reqs = [{"op": "store.remote", "scratch": scratch, "ws": ws, "targets": t, "history": h, "remote": ("mem", "s3")[i % 2], "progress": i % 4 < 2, "direct": True}
             for i, (ws, t, h, _) in enumerate(hs)]
+    # what a kill or a write fault leaves behind in ONE of the two tiers, then the next build (which has to store the outputs again):
+    # blobs only in the remote tier (a kill after the upload and before the local rename, a local write that failed while the
+    # upload went through, a lost local entry / grog clean, another machine), blobs only in the local tier (the remote write failed
+    # after the stream was sent, a kill during the upload). Through the real S3Cache over the in-memory S3 client and through the
+    # backend backends.GetCacheBackend constructs from an S3 configuration (real AWS SDK client, in-process S3 endpoint).
+    th = one_tier_histories(ctx.rng, ctx.tier == "quick")
+    for i, (ws, t, h, fam) in enumerate(th):
+        h = h + [{"m": "Z", "do": "restore", "targets": list(range(len(t)))}]
+        for mode in ({"remote": "s3", "direct": i % 2 == 0}, {"construct": "config"}):
+            hs.append((ws, t, h, fam))
+            reqs.append(dict({"op": "store.remote", "scratch": scratch, "ws": ws, "targets": t, "history": h, "progress": i % 2 == 0}, **mode))
     outs = S.impl(ctx, reqs) or []
     n = 0
     for (ws, t, h, fam), req, x in zip(hs, reqs, outs):
@@ -286,11 +324,21 @@ def remote_read_faults(ctx, scratch, stats):
             ctx.violation("implementation driver failed on a read-fault history", {"kind": "impl-crash", "request": req, "impl": x}, signature="driver-error", found_input="panic" in x)
             continue
         n += 1
-        for st in x.get("steps") or []:
+        for si, st in enumerate(x.get("steps") or []):
             for mname, bad in (st.get("local_audit") or {}).items():
                 ctx.violation("after a failed cache read the local cache of machine %s exposes an entry whose content does not match its key: %s" % (mname, bad[0]),
                               {"kind": "oracle", "oracle": "content audit of the local caches after read faults", "request": req, "step": st, "family": fam},
                               signature="read-fault-leaves-corrupt-entry")
+            for bad in [d for d in (st.get("dangling") or []) if "does not hash" not in d][:1]:
+                ctx.violation("after a storage fault and the builds that followed, the remote tier exposes a target result that references a blob the remote tier does not hold: " + bad,
+                              {"kind": "oracle", "oracle": "closure audit of the remote tier after every step", "request": req, "step": st, "family": fam},
+                              signature="remote-result-without-blob-after-fault")
+            if st.get("do") in ("build", "mixed") and si < len(h) and not h[si].get("faults"):
+                for r in st.get("results") or []:
+                    if r.get("kind", st["do"]) == "build" and r["outcome"] == "err":
+                        ctx.violation("a build without any fault cannot store its outputs after an earlier storage fault / loss left a blob in one tier only (what was lost must be stored again)",
+                                      {"kind": "oracle", "oracle": "the next build succeeds", "request": req, "step": st, "family": fam},
+                                      signature="build-fails-after-one-tier-loss")
             for bad in [d for d in (st.get("dangling") or []) if "does not hash" in d]:
                 ctx.violation("after a storage fault the remote tier exposes an object whose content does not match its digest: " + bad,
                               {"kind": "oracle", "oracle": "content audit of the remote tier after faults", "request": req, "step": st, "family": fam},
